@@ -30,6 +30,7 @@ META = {
     "not_decided": "dependence on set iteration order under different hash seeds; third-party determinism",
 }
 META["explanation"] += ' Also: calls through names bound to the random modules, parallel execution, tqdm display state, descriptors keeping values on themselves.'
+META["explanation"] += ' Round 5: E5 (what choice / choices / sample / shuffle draw from is not ordered by a set, also through package helpers), module-level iterator objects (E4), classes instantiated through a constant table (E3), DEP-C06 VALUE strategy (no decision by identity of equal strings); **options mappings built elsewhere are not decided. HAZARD: constructs that do not mean what they look like, met in the analysed code (defaults evaluated once, class-level containers changed through self, dict.fromkeys with a shared mutable value, late-binding lambdas, truth value of objects that define __len__) are reported by every check.'
 MIN_INSTANCES = {"E1": 15, "E2": 1, "E3": 2, "E4": 1, "FIXTURE": 1}
 
 CLOCKS = ("time.", "datetime.", "uuid.", "secrets.", "os.urandom", "os.getpid", "os.times", "socket.", "platform.node")
